@@ -101,6 +101,7 @@ class Profile:
     forward_refs: bool = True  # dependencies on tasks that are declared later in the file
     unsched: bool = False  # sprinkle unschedulable leaves: never-working resource, cycles, group allocations
     container_work: bool = False  # containers that carry effort / allocate themselves
+    local_ids: bool = False  # children of different containers share local ids (c0, c1, ...); full paths stay unique
     dup_edges: bool = False  # the same pair of tasks connected by a depends and a precedes statement with different gaps
     durs: list = field(default_factory=list)  # explicit (n, unit) project lengths to sample from (overrides weeks)
     starts: list = field(default_factory=list)  # explicit project start dates to sample from
@@ -593,7 +594,30 @@ def project_specs(draw, pf: Profile):
                         q = tm_.get(d.target)
                         if q is not None and not q.children and q.start is None and not q.milestone and draw(st.booleans()):
                             q.sched = "alap"
+    if pf.local_ids and draw(st.booleans()):
+        _localise_ids(spec)
     return spec
+
+
+def _localise_ids(spec):
+    """Rename the children of every container to c0, c1, ... : tasks in different containers then share local ids
+    (their full paths stay distinct).  All dependency targets are rewritten."""
+    pmap = {}
+
+    def rec(ts, old_prefix, new_prefix, inside):
+        for i, t in enumerate(ts):
+            old = old_prefix + (t.id,)
+            nid = f"c{i}" if inside else t.id
+            new = new_prefix + (nid,)
+            pmap[old] = new
+            rec(t.children, old, new, True)
+            t.id = nid
+
+    rec(spec.tasks, (), (), False)
+    for _p, t in spec.iter_tasks():
+        for d in t.deps:
+            if d.target in pmap:
+                d.target = pmap[d.target]
 
 
 def _limits(draw, res_min, resources=None):
